@@ -375,3 +375,193 @@ Proof.
   - (* LReg from GotSub *)
     apply due_reg; auto; [rewrite Heql; cbn [view_of]; rewrite Nat.eqb_refl; auto|intros j; rewrite Heql; reflexivity].
 Qed.
+
+(* ---- the supporting clauses ------------------------------------------------------------ *)
+Lemma last_step s l s' :
+  Hist s -> step s l = Some s' ->
+  forall p, inflight (pc s') = Some p -> exists o, order s' = o ++ [p].
+Proof.
+  intros HH H q Hq. pose proof (h_last _ HH) as L.
+  step_cases H l; simp_in_hyp Hq; rw_in Hq; simp_in_hyp Hq; simp_goal; try discriminate Hq;
+    try (apply L; exact Hq);
+    try (injection Hq as <-; eexists; reflexivity);
+    try (injection Hq as <-; apply L; rw; reflexivity).
+Qed.
+
+Lemma frozen_step s l s' :
+  Hist s -> step s l = Some s' ->
+  forall p, In p (order s') -> p_pc (pub s' p) <> P0 /\ p_pc (pub s' p) <> PAtSel.
+Proof.
+  intros HH H q Hq. pose proof (h_frozen _ HH) as F.
+  step_cases H l; simp_in_hyp Hq; simp_goal; try (apply F; exact Hq).
+  all: try (apply in_app_or in Hq; destruct Hq as [Hq|[Hq|[]]]).
+  all: match goal with
+       | |- context [upd _ ?p _ ?q0] =>
+           let E := fresh "E" in
+           destruct (Nat.eqb q0 p) eqn:E;
+           [apply Nat.eqb_eq in E; subst; rewrite ?upd_same; simp_goal | rewrite ?(upd_other _ _ _ _ E)]
+       end; try (apply F; assumption); try (split; discriminate).
+  all: try (destruct (F _ Hq) as [F1 F2]; split; congruence).
+  subst q. rewrite Nat.eqb_refl in E. discriminate E.
+Qed.
+
+Lemma nodup_snoc {A} (l : list A) x : NoDup l -> ~ In x l -> NoDup (l ++ [x]).
+Proof.
+  induction 1 as [|y l Hy N IH]; intros Hx; cbn.
+  - constructor; [intros []|constructor].
+  - constructor.
+    + intros Hi. apply in_app_or in Hi. destruct Hi as [Hi|[<-|[]]]; [contradiction|]. apply Hx. now left.
+    + apply IH. intros Hi. apply Hx. now right.
+Qed.
+
+Lemma nodup_step s l s' : Hist s -> step s l = Some s' -> NoDup (order s').
+Proof.
+  intros HH H. pose proof (h_nodup _ HH) as N. pose proof (h_frozen _ HH) as F.
+  step_cases H l; simp_goal; try exact N.
+  apply nodup_snoc; [exact N|]. intros Hx. destruct (F _ Hx) as [_ F2]. contradiction.
+Qed.
+
+Ltac pos_close P1 P2 P3 :=
+  rewrite ?app_length; cbn [length]; split; [lia|split;
+    [ let M := fresh "M" in let Hin := fresh "Hin" in
+      intros M Hin;
+      first [ exfalso; apply Hin; reflexivity
+            | discriminate M
+            | apply P2; assumption
+            | assert (_ < _) by (apply P2; [exact M|discriminate]); lia
+            | lia ]
+    | let e := fresh "e" in let w := fresh "w" in let Hm := fresh "Hm" in
+      intros e w Hm;
+      first [ discriminate Hm
+            | destruct (P3 e w Hm); lia
+            | injection Hm as <- <-; lia ] ]].
+
+Lemma pos_step s l s' :
+  Inv s -> Hist s -> step s l = Some s' ->
+  forall i r, s_reg (sub s' i) = Some r ->
+    r <= length (order s') /\
+    (s_rem (sub s' i) = None -> inflight (pc s') <> None -> r < length (order s')) /\
+    (forall e w, s_rem (sub s' i) = Some (e, w) -> r <= e /\ e <= length (order s')).
+Proof.
+  intros I HH H k r R. pose proof (h_pos _ HH k r) as P.
+  step_cases H l; simp_in_hyp R; simp_goal.
+  all: try (destruct (P R) as (P1 & P2 & P3); simp_in_hyp P2; pos_close P1 P2 P3; fail).
+  all: try match goal with
+       | |- context [upd _ ?i _ ?k0] =>
+           let E := fresh "E" in
+           destruct (Nat.eqb k0 i) eqn:E;
+           [apply Nat.eqb_eq in E; subst; rewrite ?upd_same in *; simp_goal; simp_in_hyp R
+           | rewrite ?(upd_other _ _ _ _ E) in *]
+       end.
+  all: try (destruct (P R) as (P1 & P2 & P3); simp_in_hyp P2; pos_close P1 P2 P3; fail).
+  all: try (rw; simp_goal; destruct (P R) as (P1 & P2 & P3); simp_in_hyp P2; pos_close P1 P2 P3; fail).
+  all: injection R as <-;
+       match goal with II : Inv ?s0, Hv : pc ?s0 = _ |- context [s_rem (sub ?s0 ?i)] =>
+         destruct (subscribing_never s0 i II) as [R0 M0];
+         [rewrite Hv; cbn [view_of]; rewrite Nat.eqb_refl; auto|]
+       end;
+       split; [lia|split; [intros _ Hin; exfalso; apply Hin; reflexivity|intros e w Hm; congruence]].
+Qed.
+
+(* topics of a table entry after an update that keeps them *)
+Ltac topics_upd :=
+  repeat match goal with
+  | |- context [upd ?f ?i ?x ?k] =>
+      let E := fresh "E" in
+      destruct (Nat.eqb k i) eqn:E;
+      [apply Nat.eqb_eq in E; subst; rewrite ?upd_same | rewrite ?(upd_other _ _ _ _ E)]
+  end; simp_goal.
+
+Lemma match_step s l s' :
+  Inv s -> Hist s -> step s l = Some s' ->
+  forall i p, inflight (pc s') = Some p -> mem i (todo_of (pc s')) = true -> matches s' i p = true.
+Proof.
+  intros I HH H k q Hq Hm. pose proof (h_match _ HH k q) as M. unfold matches in M |- *.
+  step_cases H l; simp_in_hyp Hq; simp_in_hyp Hm; rw_in Hq; rw_in Hm; simp_in_hyp Hq; simp_in_hyp Hm;
+    try discriminate Hq; try (rewrite mem_nil in Hm; discriminate Hm); simp_in_hyp M; simp_goal.
+  all: try (injection Hq as <-).
+  all: try (apply M; [reflexivity|assumption]; fail).
+  all: try (apply M; assumption).
+  all: try (topics_upd; (apply M; [reflexivity|first [assumption|eapply mem_rem_sub; eassumption]]); fail).
+  all: try (topics_upd; apply M; assumption).
+  - (* SubEnter i *)
+    destruct (Nat.eqb k i) eqn:E.
+    + apply Nat.eqb_eq in E. subst k. exfalso.
+      destruct (life_registered s i I (todo_registered s i I Hm)) as (r & R & _).
+      exact (started_of_reg s i r I R Heqs0).
+    + rewrite (upd_other _ _ _ _ E). apply M; assumption.
+  - (* PubEnter p *)
+    destruct (Nat.eqb q p) eqn:E.
+    + apply Nat.eqb_eq in E. subst q. exfalso.
+      destruct (h_last _ HH p Hq) as [o Ho].
+      destruct (h_frozen _ HH p) as [F _]; [rewrite Ho; apply in_or_app; right; left; reflexivity|].
+      contradiction.
+    + rewrite (upd_other _ _ _ _ E). apply M; assumption.
+  - (* LErrs *)
+    rewrite mem_filter in Hm. apply andb_true_iff in Hm. destruct Hm as [_ X].
+    rewrite upd_same. simp_goal. exact X.
+  - rewrite mem_filter in Hm. apply andb_true_iff in Hm. destruct Hm as [_ X].
+    rewrite upd_same. simp_goal. exact X.
+Qed.
+
+Lemma flushing_registered s i : Inv s -> view_of (pc s) i = VFlushing -> mem i (subs s) = true.
+Proof.
+  intros I V. pose proof (inv_sub _ I i) as O. unfold loc in O. rewrite V in O.
+  destruct (mem i (subs s)) eqn:E; [reflexivity|exfalso; crush_ok O].
+Qed.
+
+Lemma nolog_step s l s' :
+  Inv s -> Hist s -> step s l = Some s' ->
+  forall i, s_reg (sub s' i) = None -> s_llog (sub s' i) = [].
+Proof.
+  intros I HH H k R. pose proof (h_nolog _ HH k) as N.
+  step_cases H l; simp_in_hyp R; simp_goal; try (apply N; exact R).
+  all: match goal with
+       | |- context [upd _ ?i _ ?k0] =>
+           let E := fresh "E" in
+           destruct (Nat.eqb k0 i) eqn:E;
+           [apply Nat.eqb_eq in E; subst; rewrite ?upd_same in *; simp_goal; simp_in_hyp R
+           | rewrite ?(upd_other _ _ _ _ E) in *]
+       end; try (apply N; exact R); try discriminate R.
+  - (* LSend ok *) exfalso.
+    assert (mem i (todo_of (pc s)) = true) as Ht by (rewrite Heql; exact Heqb).
+    destruct (life_registered s i I (todo_registered s i I Ht)) as (r & R' & _). congruence.
+  - exfalso.
+    assert (mem i (todo_of (pc s)) = true) as Ht by (rewrite Heql; exact Heqb).
+    destruct (life_registered s i I (todo_registered s i I Ht)) as (r & R' & _). congruence.
+  - (* LFlush *) exfalso.
+    assert (view_of (pc s) i0 = VFlushing) as V by (rewrite Heql; cbn [view_of]; now rewrite Nat.eqb_refl).
+    destruct (life_registered s i0 I (flushing_registered s i0 I V)) as (r & R' & _). congruence.
+  - exfalso.
+    assert (view_of (pc s) i0 = VFlushing) as V by (rewrite Heql; cbn [view_of]; now rewrite Nat.eqb_refl).
+    destruct (life_registered s i0 I (flushing_registered s i0 I V)) as (r & R' & _). congruence.
+Qed.
+
+(* ---- the history invariant holds in every reachable state ------------------------------- *)
+Lemma hist_init : Hist init.
+Proof.
+  split; cbn; intros; try discriminate; try contradiction; auto. constructor.
+Qed.
+
+Lemma hist_step s l s' : Inv s -> Hist s -> step s l = Some s' -> Hist s'.
+Proof.
+  intros I HH H. split.
+  - eapply last_step; eauto.
+  - eapply pos_step; eauto.
+  - eapply match_step; eauto.
+  - eapply frozen_step; eauto.
+  - eapply nodup_step; eauto.
+  - eapply nolog_step; eauto.
+  - eapply due_step; eauto. eapply step_no_panic; eauto.
+Qed.
+
+Lemma hist_run ls : forall s s', reachable s -> Hist s -> run s ls = Some s' -> Hist s'.
+Proof.
+  induction ls as [|l ls IH]; intros s s' R HH H; cbn in H.
+  - now injection H as <-.
+  - destruct (step s l) as [s1|] eqn:E; [|discriminate].
+    eapply IH; [eapply reachable_step; eauto| |exact H]. eapply hist_step; eauto. now apply inv_reachable.
+Qed.
+
+Theorem hist_reachable s : reachable s -> Hist s.
+Proof. intros [ls H]. eapply hist_run; [exists []; reflexivity|apply hist_init|exact H]. Qed.
